@@ -9,6 +9,7 @@ pub mod c20;
 pub mod c21;
 pub mod c22;
 pub mod c23;
+pub mod c24;
 pub mod c25;
 pub mod c26;
 pub mod c27;
@@ -34,6 +35,7 @@ pub fn run(id: &str, run: &mut Run) {
         "C35" => c35::run(run),
         "C37" => c37::run(run),
         "C30" => c30::run(run),
+        "C24" => c24::run(run),
         _ => machinery_failure(&format!("no check for property {}", id)),
     }
 }
@@ -55,6 +57,7 @@ pub fn replay(id: &str, case: &Value, run: &mut Run) {
         "C35" => c35::replay(case, run),
         "C37" => c37::replay(case, run),
         "C30" => c30::replay(case, run),
+        "C24" => c24::replay(case, run),
         _ => machinery_failure(&format!("no replay for property {}", id)),
     }
 }
@@ -66,6 +69,7 @@ pub fn child(id: &str, args: &[String]) {
         "C04" => c04::child(args),
         "C02" => c02::child(args),
         "C30" => c30::child(args),
+        "C24" => c24::child(args),
         _ => machinery_failure(&format!("no child mode for property {}", id)),
     }
 }
